@@ -587,6 +587,9 @@ def make_task_class(ts, module_name, g):
     else:
         meta_cls = type('Meta', (), meta)
     ns = {'Meta': meta_cls, 'run': env['run'], '__module__': module_name, 'LAB_SPEC': ts}
+    if ts.get('falsy_task'):
+        # a task class with a length of its own (number of items it has collected so far): its objects are falsy, and tasks all the same
+        ns['__len__'] = lambda self: 0
     return type(ts['cls'], (base,), ns)
 
 
